@@ -39,7 +39,7 @@ def erase(fam, t):
     return (tuple(labs), t.scalar)
 
 
-def run(chk, S: Session):
+def _run_own(chk, S: Session):
     chk.trust("primitive signatures of adomain.py", "NumPy ordering of kron / repeat / tile / reshape")
     s1 = chk.rule("R-C14-S1", "sibling agreement of the inferred (layout-erased) unit signatures of the three factorisations", floor=20)
     r2 = chk.rule("R-C14-R2", "dense composite axes are coefficient-major (n major, d minor) at every producer", floor=9)
@@ -292,3 +292,12 @@ def factory_rules(chk, S, r4):
             ok = ok and all(x is u0 for x in ss[2:]) and "deps" in T.atoms_of(u0) and T.atoms_of(u0) <= ({"deps", "s0"} if fam == "isotropic" else {"deps", "s0", "m0"}) and any(t.op == "np.ones_like" for t in T.subterms(u0))
             r4.require(bool(ok), f"{cls}._add_diffuse_derivatives", f"{k} zero means like mean[0], {k} standard deviations diffuse_eps * ones like std[0], appended after the given coefficients", f"{T.show(out, 4)}", qual, {"model": fam, "k": k})
         S.absorb(it)
+
+
+def run(chk, S: Session):
+    _run_own(chk, S)
+    from ..harness import borrow
+
+    rb = chk.rule("R-C14-B", "clauses of this statement decided by rules of C07 (error norms the adaptive runs of all models share) and C11 (observation damping of every linearisation)", floor=6)
+    borrow(chk, S, rb, "C07", lambda r, c: r == "R-C07-5")
+    borrow(chk, S, rb, "C11", lambda r, c: r == "R-C11-5" and "damping" in c)
